@@ -241,7 +241,7 @@ def _explore(args):
         st['points'] += obs['points']
         st['gate_positions'].add(obs['gate_at'])
         st['outcomes'].add((obs['verdict'], len([e for e in obs['events'] if e[2] == 'dev-req'])))
-        bad = verdicts.pop(tuple(ch.choices), None) if tuple(ch.choices) in verdicts else judge(script_name, api, obs, rerun)
+        bad = verdicts.pop(tuple(ch.choices))
         if bad is None and st['execs'] % 53 == 0:
             obs2 = execute(script_name, api, choice.Chooser(ch.choices), stall=True, rerun=rerun, gate_points=gate_points, window=window)
             if obs2['events'] != obs['events']:
